@@ -30,7 +30,8 @@ Record creq := mkReq { rq_method : str; rq_target : str; rq_host : str; rq_heade
 (** What the target answers (framing apart): [rs_body] is the body as put on
     the wire (empty for HEAD, 204, 304); [rs_gunzipped] its gzip decoding when it
     is a non-empty valid gzip stream (computed by the generator). *)
-Record cresp := mkResp { rs_status : N; rs_headers : headers; rs_body : str; rs_gunzipped : option str }.
+Record cresp := mkResp { rs_status : N; rs_headers : headers; rs_body : str; rs_gunzipped : option str;
+                         rs_chunked : bool (* length not announced: Transfer-Encoding: chunked *) }.
 
 (** What was observed.  Header lists carry canonical keys; framing headers
     (Content-Length, Transfer-Encoding, and Connection on the client side) are
@@ -49,7 +50,7 @@ Record ccase := mkCase { c_bindings : list binding; c_req : creq; c_resp : cresp
 Inductive expect :=
 | ExReject | ExNotFound | ExUnmodelled
 | ExForward (svc : N) (target : str) (theaders : headers)
-            (rheaders : headers) (sniff date : bool) (rbody : str).
+            (rheaders : headers) (sniff sniff_certain date : bool) (rbody : str).
 
 Definition is_some {A} (o : option A) : bool := match o with Some _ => true | None => false end.
 
@@ -69,8 +70,10 @@ Definition model (c : ccase) : expect :=
       let th := wire_headers (rq_method rq) ph in
       let gz := gzip_decoded (rq_method rq) ph (resp_canonical (rs_headers rs)) && is_some (rs_gunzipped rs) in
       let rbody := if gz then match rs_gunzipped rs with Some g => g | None => rs_body rs end else rs_body rs in
-      let '(rh, sniff, date) := client_headers gz (negb (is_empty rbody)) (rs_headers rs) in
-      ExForward (b_svc b) (forward_target (matched_prefix (b_strip b) (b_prefix b)) u) th rh sniff date rbody
+      let '(rh, sniff, date) := client_headers (rs_status rs) gz (negb (is_empty rbody)) (rs_headers rs) in
+      (* sniffing is certain only when the response length is known up front *)
+      let certain := sniff && negb gz && negb (rs_chunked rs) in
+      ExForward (b_svc b) (forward_target (matched_prefix (b_strip b) (b_prefix b)) u) th rh sniff certain date rbody
     end
   end.
 
@@ -84,16 +87,17 @@ Definition agree (c : ccase) : bool :=
   | ExReject => negb (o_hit o) && (o_status o =? 400)
   | ExNotFound => negb (o_hit o) && (o_status o =? 404)
   | ExUnmodelled => false
-  | ExForward svc target th rh sniff date rbody =>
+  | ExForward svc target th rh sniff certain date rbody =>
     o_hit o && (o_svc o =? svc)
     && str_eqb (o_method o) (rq_method rq) && str_eqb (o_target o) target && str_eqb (o_host o) (rq_host rq)
     && headers_eqb (o_theaders o) th && str_eqb (o_tbody o) (rq_body rq)
     && (o_status o =? rs_status rs)
     && match drop_added K_date date (o_headers o) with
-       | Some h1 => match drop_added K_ct sniff h1 with
-                    | Some h2 => headers_eqb h2 rh
-                    | None => false
-                    end
+       | Some h1 => (match drop_added K_ct sniff h1 with
+                     | Some h2 => headers_eqb h2 rh
+                     | None => false
+                     end)
+                    || (sniff && negb certain && headers_eqb h1 rh)
        | None => false
        end
     && str_eqb (o_body o) rbody
@@ -229,27 +233,43 @@ Definition f3_cond (c : ccase) : bool :=
 Definition f3_headers (c : ccase) : headers :=
   if f3_cond c then hdel K_ce (strict_rheaders (c_resp c)) else strict_rheaders (c_resp c).
 
+(** C13-F6: net/http's server drops Content-Type from a 304. *)
+Definition f6_cond (c : ccase) : bool := (rs_status (c_resp c) =? 304) && hhas K_ct (f3_headers c).
+Definition f6_headers (c : ccase) : headers := if f6_cond c then hdel K_ct (f3_headers c) else f3_headers c.
+
 (** C13-F2: the target sent no Content-Type with a non-empty body; the only
     header difference is one added Content-Type. *)
 Definition f2_cond (c : ccase) : bool :=
-  negb (hhas K_ct (f3_headers c)) && negb (is_empty (o_body (c_obs c)))
+  negb (hhas K_ct (f6_headers c)) && negb (is_empty (o_body (c_obs c)))
   && Nat.eqb (length (hvalues K_ct (o_headers (c_obs c)))) 1.
 
 Definition rheaders_explained (c : ccase) : bool :=
-  let exp := f3_headers c in
+  let exp := f6_headers c in
   let oh := o_headers (c_obs c) in
-  (f3_cond c || f2_cond c) &&
-  headers_eqb (date_adjusted exp (if f2_cond c then hdel K_ct oh else oh)) exp.
+  (f3_cond c || f6_cond c || f2_cond c) &&
+  (headers_eqb (date_adjusted exp (if f2_cond c then hdel K_ct oh else oh)) exp
+   || headers_eqb (date_adjusted exp oh) exp).
+
+(** Whether F2 is needed to explain the response headers. *)
+Definition rheaders_uses_f2 (c : ccase) : bool :=
+  negb (headers_eqb (date_adjusted (f6_headers c) (o_headers (c_obs c))) (f6_headers c)) && f2_cond c.
 
 Definition rbody_explained (c : ccase) : bool :=
   f3_cond c && match rs_gunzipped (c_resp c) with Some g => str_eqb (o_body (c_obs c)) g | None => false end.
 
 (** C13-F4: User-Agent is written once, from the first value, and not at all
-    when that is empty. *)
-Definition known_f4 (c : ccase) : bool :=
+    when that is empty.  C13-F3 on the request side: the Transport appends
+    "Accept-Encoding: gzip" when the client's (first) Accept-Encoding is empty. *)
+Definition key_explained (sent oth : headers) (k : str) : bool :=
+  (str_eqb k K_ua && strs_eqb (hvalues K_ua oth) (if is_empty (hget K_ua sent) then [] else [hget K_ua sent]))
+  || (str_eqb k K_ae && is_empty (hget K_ae sent) && strs_eqb (hvalues K_ae oth) (hvalues K_ae sent ++ [bs "gzip"])).
+
+Definition headers_explained (c : ccase) : bool :=
   let sent := sent_of (c_req c) in let oth := o_theaders (c_obs c) in
-  forallb (fun k => str_eqb k K_ua) (failing_header_keys sent oth)
-  && strs_eqb (hvalues K_ua oth) (if is_empty (hget K_ua sent) then [] else [hget K_ua sent]).
+  forallb (key_explained sent oth) (failing_header_keys sent oth).
+
+Definition failing_has (k : str) (c : ccase) : bool :=
+  mem_str k (failing_header_keys (sent_of (c_req c)) (o_theaders (c_obs c))).
 
 (** C13-F5: the client named X-Request-Id / X-Request-Start in Connection; the
     proxy drops it as hop-by-hop after the middleware had set it. *)
@@ -269,16 +289,19 @@ Definition diagnose (c : ccase) : N * N :=
   let un (ok explained : bool) := negb ok && negb explained in
   let unexplained :=
     negb (v_method v) || un (v_path v) (known_f1 c) || negb (v_query v) || negb (v_host v)
-    || un (v_headers v) (known_f4 c) || negb (v_body v) || negb (v_xff v)
+    || un (v_headers v) (headers_explained c) || negb (v_body v) || negb (v_xff v)
     || un (v_rid v) (known_f5 K_rid c) || un (v_rstart v) (known_f5 K_rstart c)
     || negb (v_status v) || un (v_rheaders v) (rheaders_explained c) || un (v_rbody v) (rbody_explained c) in
   let used (cond : bool) (bit : N) := if cond then bit else 0 in
+  let rh := negb (v_rheaders v) && rheaders_explained c in
   let findings :=
     used (negb (v_path v) && known_f1 c) 1
-    + used (negb (v_rheaders v) && rheaders_explained c && f2_cond c) 2
-    + used ((negb (v_rheaders v) && rheaders_explained c && f3_cond c) || (negb (v_rbody v) && rbody_explained c)) 4
-    + used (negb (v_headers v) && known_f4 c) 8
+    + used (rh && rheaders_uses_f2 c) 2
+    + used ((rh && f3_cond c) || (negb (v_rbody v) && rbody_explained c)
+            || (negb (v_headers v) && headers_explained c && failing_has K_ae c)) 4
+    + used (negb (v_headers v) && headers_explained c && failing_has K_ua c) 8
     + used ((negb (v_rid v) && known_f5 K_rid c) || (negb (v_rstart v) && known_f5 K_rstart c)) 16
+    + used (rh && f6_cond c) 32
     + used unexplained 128 in
   (findings, failed).
 
